@@ -47,6 +47,12 @@ type procM struct {
 	FinTx []byte
 }
 
+type wdEvent struct {
+	kind string
+	id   uint64
+	key  string
+}
+
 type wdMon struct {
 	b        *bridgeHist
 	wds      map[uint64]*wdM
@@ -54,6 +60,7 @@ type wdMon struct {
 	next     uint64
 	npid     uint64
 	acts     map[uint64]string        // id -> operation accepted in the current block that may move it
+	events   []wdEvent                // terminal events of accepted operations, in order (C06's owed log)
 	classify func(addr string) []byte // ground truth: the script a withdrawal address stands for, nil = must be refunded
 }
 
@@ -494,6 +501,8 @@ func (m *wdMon) finalizeOp(p *procM, cd *wdCand, perturb string) *relOp {
 				m.acts[id] = "finalize"
 				if hit != nil && k < len(hit.Vals) {
 					x.PaidAmt = new(big.Int).SetUint64(hit.Vals[k])
+					wei := new(big.Int).Mul(x.PaidAmt, big.NewInt(1e10))
+					m.events = append(m.events, wdEvent{"paid", id, fmt.Sprintf("id=%d txid=%x vout=%d amount=%s", id, msg.Txid, k, wei)})
 				}
 			}
 		}
@@ -531,6 +540,7 @@ func (m *wdMon) approveOp(ids []uint64, perturb string) *relOp {
 			}
 			x.State = "canceled"
 			m.acts[id] = "approve"
+			m.events = append(m.events, wdEvent{"refund", id, fmt.Sprintf("id=%d", id)})
 		}
 	}}
 }
@@ -559,6 +569,151 @@ func (m *wdMon) observe() {
 	m.acts = map[uint64]string{}
 }
 
+var processPerturbs = []string{"value+1", "wrong-script", "fee-above-limit", "two-extra-outputs", "change-to-foreign-key", "change-to-old-key", "swap-outputs"}
+var finalizePerturbs = []string{"unvoted-txid", "txid-of-a-filler", "filler-under-alias", "proof-bitflip", "wrong-header", "forged-header-root", "unvoted-height", "other-pid", "unmined-candidate"}
+
+// c05Gen queues one block's worth of user requests, relayer operations and Bitcoin activity for withdrawals.
+func c05Gen(m *wdMon, blk, nBlocks, idx int, addrPool []addrCase) {
+	b := m.b
+	lh := b.lh
+	r := lh.r
+	c := lh.c
+	// ---- users (execution layer, well-behaved ids) ----
+	if blk < nBlocks-25 {
+		for k := r.Intn(3); k > 0 && m.next < 12+uint64(blk/4); k-- {
+			amt := []uint64{30_000, 100_000, 1_000_000, 5_000_000_000}[r.Intn(4)]
+			price := []uint64{1, 5, 50, 1000}[r.Intn(4)]
+			addr, _ := world.P2WPKH(world.Derive(c.Seed, "wdaddr", int(m.next)*100+idx)[:20], regtest)
+			if r.Intn(5) == 0 {
+				addr = addrPool[r.Intn(len(addrPool))].Str
+			}
+			b.bridgeReq.Withdraws = append(b.bridgeReq.Withdraws, &goattypes.WithdrawalRequest{Id: m.next, Amount: amt, TxPrice: price, Address: addr})
+			lh.logf("EL: withdraw #%d %d sat price %d to %q", m.next, amt, price, addr)
+			m.next++
+		}
+		if ids := m.idsIn("pending", "processing", "paid", "canceled"); len(ids) > 0 && r.Intn(4) == 0 {
+			id := ids[r.Intn(len(ids))]
+			p := []uint64{1, 3, 20, 200, 5000}[r.Intn(5)]
+			b.bridgeReq.ReplaceByFees = append(b.bridgeReq.ReplaceByFees, &goattypes.ReplaceByFeeRequest{Id: id, TxPrice: p})
+			lh.logf("EL: rbf #%d price %d", id, p)
+		}
+		if ids := m.idsIn("pending", "processing", "canceling", "paid"); len(ids) > 0 && r.Intn(3) == 0 {
+			id := ids[r.Intn(len(ids))]
+			b.bridgeReq.Cancel1s = append(b.bridgeReq.Cancel1s, &goattypes.Cancel1Request{Id: id})
+			lh.logf("EL: cancel #%d", id)
+		}
+	}
+	// ---- relayer: one voted message ----
+	var open []*procM
+	for _, p := range m.procs {
+		if !p.Done {
+			open = append(open, p)
+		}
+	}
+	sort.Slice(open, func(i, j int) bool { return open[i].Pid < open[j].Pid })
+	pend := m.idsIn("pending", "canceling")
+	switch x := r.Intn(10); {
+	case x < 3 && b.bc.Tip > b.votedTip:
+		if op := b.hashesOp("next"); op != nil {
+			b.ops = append(b.ops, op)
+		}
+	case x < 6 && len(pend) > 0:
+		n := 1 + r.Intn(min(len(pend), 4))
+		r.Shuffle(len(pend), func(i, j int) { pend[i], pend[j] = pend[j], pend[i] })
+		ids := append([]uint64{}, pend[:n]...)
+		perturb := ""
+		switch r.Intn(6) {
+		case 0:
+			perturb = processPerturbs[r.Intn(len(processPerturbs))]
+		case 1: // an id in another state, a duplicate, an unknown id
+			others := m.idsIn("processing", "paid", "canceled")
+			switch {
+			case len(others) > 0 && r.Intn(2) == 0:
+				ids = append(ids, others[r.Intn(len(others))])
+				perturb = "id-in-other-state"
+			case r.Intn(2) == 0:
+				ids = append(ids, ids[0])
+				perturb = "duplicate-id"
+			default:
+				ids = append(ids, 99999)
+				perturb = "unknown-id"
+			}
+		}
+		if op := m.processOp(ids, perturb); op != nil {
+			b.ops = append(b.ops, op)
+		}
+	case x < 8 && len(open) > 0:
+		p := open[r.Intn(len(open))]
+		perturb := ""
+		if r.Intn(2) == 0 {
+			perturb = []string{"fee-equal", "fee-lower", "same-tx", "wrong-script", "value+1"}[r.Intn(5)]
+		}
+		if op := m.replaceOp(p, perturb); op != nil {
+			b.ops = append(b.ops, op)
+		}
+	default:
+		if op := b.hashesOp("next"); op != nil {
+			b.ops = append(b.ops, op)
+		}
+	}
+	// ---- Bitcoin: mine candidates of open batches ----
+	if len(open) > 0 && r.Intn(3) == 0 {
+		p := open[r.Intn(len(open))]
+		cd := p.Cands[r.Intn(len(p.Cands))]
+		if cd.Height == 0 {
+			var tx wire.MsgTx
+			if err := tx.DeserializeNoWitness(bytes.NewReader(cd.Raw)); err == nil {
+				txs := []*wire.MsgTx{b.bc.CoinbaseTx(b.bc.Tip + 1)}
+				for f := r.Intn(3); f > 0; f-- {
+					txs = append(txs, b.bc.FillerTx())
+				}
+				cd.Index = len(txs)
+				txs = append(txs, &tx)
+				for f := r.Intn(3); f > 0; f-- {
+					txs = append(txs, b.bc.FillerTx())
+				}
+				blk := b.bc.Mine(txs)
+				cd.Height = blk.Height
+				lh.logf("bitcoin: candidate of pid %d mined in block %d at position %d", p.Pid, blk.Height, cd.Index)
+			}
+		}
+	}
+	// ---- relayer: unvoted messages ----
+	for _, p := range open {
+		for _, cd := range p.Cands {
+			if cd.Height != 0 && cd.Height <= b.votedTip && r.Intn(2) == 0 {
+				perturb := ""
+				if r.Intn(2) == 0 {
+					perturb = finalizePerturbs[r.Intn(len(finalizePerturbs))]
+				}
+				if op := m.finalizeOp(p, cd, perturb); op != nil {
+					b.ops = append(b.ops, op)
+					if perturb == "" {
+						break
+					}
+				}
+			}
+		}
+	}
+	if cl := m.idsIn("canceling"); len(cl) > 0 && r.Intn(3) == 0 {
+		n := 1 + r.Intn(len(cl))
+		if op := m.approveOp(cl[:n], ""); op != nil {
+			b.ops = append(b.ops, op)
+		}
+	} else if r.Intn(6) == 0 {
+		others := m.idsIn("pending", "processing", "paid", "canceled")
+		if len(others) > 0 {
+			ids := []uint64{others[r.Intn(len(others))]}
+			if len(cl) > 0 {
+				ids = append(ids, cl[0])
+			}
+			if op := m.approveOp(ids, "id-in-other-state"); op != nil {
+				b.ops = append(b.ops, op)
+			}
+		}
+	}
+}
+
 func c05History(c *vc.Ctx, idx int) {
 	cfg := lockCfg{Label: "c05", NVals: 1, Blocks: c.Pick(70, 170), Protect0: true, NRelayers: 1 + idx%3, W: lockWeights{}}
 	lh, err := newLockHistSchnorr(c, cfg, idx, idx%2 == 1)
@@ -573,7 +728,7 @@ func c05History(c *vc.Ctx, idx int) {
 	b := newBridgeHist(lh)
 	m := newWdMon(b)
 	b.afterBlock = m.observe
-	r := lh.r
+	_ = lh.r
 	if !lh.step() {
 		return
 	}
@@ -602,146 +757,11 @@ func c05History(c *vc.Ctx, idx int) {
 		}
 		return sc
 	}
-	processPerturbs := []string{"value+1", "wrong-script", "fee-above-limit", "two-extra-outputs", "change-to-foreign-key", "change-to-old-key", "swap-outputs"}
-	finalizePerturbs := []string{"unvoted-txid", "txid-of-a-filler", "filler-under-alias", "proof-bitflip", "wrong-header", "forged-header-root", "unvoted-height", "other-pid", "unmined-candidate"}
 	for blk := 0; blk < cfg.Blocks && !lh.failed; blk++ {
 		if !b.refreshGroup() {
 			return
 		}
-		// ---- users (execution layer, well-behaved ids) ----
-		if blk < cfg.Blocks-25 {
-			for k := r.Intn(3); k > 0 && m.next < 12+uint64(blk/4); k-- {
-				amt := []uint64{30_000, 100_000, 1_000_000, 5_000_000_000}[r.Intn(4)]
-				price := []uint64{1, 5, 50, 1000}[r.Intn(4)]
-				addr, _ := world.P2WPKH(world.Derive(c.Seed, "wdaddr", int(m.next)*100+idx)[:20], regtest)
-				if r.Intn(5) == 0 {
-					addr = addrPool[r.Intn(len(addrPool))].Str
-				}
-				b.bridgeReq.Withdraws = append(b.bridgeReq.Withdraws, &goattypes.WithdrawalRequest{Id: m.next, Amount: amt, TxPrice: price, Address: addr})
-				lh.logf("EL: withdraw #%d %d sat price %d to %q", m.next, amt, price, addr)
-				m.next++
-			}
-			if ids := m.idsIn("pending", "processing", "paid", "canceled"); len(ids) > 0 && r.Intn(4) == 0 {
-				id := ids[r.Intn(len(ids))]
-				p := []uint64{1, 3, 20, 200, 5000}[r.Intn(5)]
-				b.bridgeReq.ReplaceByFees = append(b.bridgeReq.ReplaceByFees, &goattypes.ReplaceByFeeRequest{Id: id, TxPrice: p})
-				lh.logf("EL: rbf #%d price %d", id, p)
-			}
-			if ids := m.idsIn("pending", "processing", "canceling", "paid"); len(ids) > 0 && r.Intn(3) == 0 {
-				id := ids[r.Intn(len(ids))]
-				b.bridgeReq.Cancel1s = append(b.bridgeReq.Cancel1s, &goattypes.Cancel1Request{Id: id})
-				lh.logf("EL: cancel #%d", id)
-			}
-		}
-		// ---- relayer: one voted message ----
-		var open []*procM
-		for _, p := range m.procs {
-			if !p.Done {
-				open = append(open, p)
-			}
-		}
-		sort.Slice(open, func(i, j int) bool { return open[i].Pid < open[j].Pid })
-		pend := m.idsIn("pending", "canceling")
-		switch x := r.Intn(10); {
-		case x < 3 && b.bc.Tip > b.votedTip:
-			if op := b.hashesOp("next"); op != nil {
-				b.ops = append(b.ops, op)
-			}
-		case x < 6 && len(pend) > 0:
-			n := 1 + r.Intn(min(len(pend), 4))
-			r.Shuffle(len(pend), func(i, j int) { pend[i], pend[j] = pend[j], pend[i] })
-			ids := append([]uint64{}, pend[:n]...)
-			perturb := ""
-			switch r.Intn(6) {
-			case 0:
-				perturb = processPerturbs[r.Intn(len(processPerturbs))]
-			case 1: // an id in another state, a duplicate, an unknown id
-				others := m.idsIn("processing", "paid", "canceled")
-				switch {
-				case len(others) > 0 && r.Intn(2) == 0:
-					ids = append(ids, others[r.Intn(len(others))])
-					perturb = "id-in-other-state"
-				case r.Intn(2) == 0:
-					ids = append(ids, ids[0])
-					perturb = "duplicate-id"
-				default:
-					ids = append(ids, 99999)
-					perturb = "unknown-id"
-				}
-			}
-			if op := m.processOp(ids, perturb); op != nil {
-				b.ops = append(b.ops, op)
-			}
-		case x < 8 && len(open) > 0:
-			p := open[r.Intn(len(open))]
-			perturb := ""
-			if r.Intn(2) == 0 {
-				perturb = []string{"fee-equal", "fee-lower", "same-tx", "wrong-script", "value+1"}[r.Intn(5)]
-			}
-			if op := m.replaceOp(p, perturb); op != nil {
-				b.ops = append(b.ops, op)
-			}
-		default:
-			if op := b.hashesOp("next"); op != nil {
-				b.ops = append(b.ops, op)
-			}
-		}
-		// ---- Bitcoin: mine candidates of open batches ----
-		if len(open) > 0 && r.Intn(3) == 0 {
-			p := open[r.Intn(len(open))]
-			cd := p.Cands[r.Intn(len(p.Cands))]
-			if cd.Height == 0 {
-				var tx wire.MsgTx
-				if err := tx.DeserializeNoWitness(bytes.NewReader(cd.Raw)); err == nil {
-					txs := []*wire.MsgTx{b.bc.CoinbaseTx(b.bc.Tip + 1)}
-					for f := r.Intn(3); f > 0; f-- {
-						txs = append(txs, b.bc.FillerTx())
-					}
-					cd.Index = len(txs)
-					txs = append(txs, &tx)
-					for f := r.Intn(3); f > 0; f-- {
-						txs = append(txs, b.bc.FillerTx())
-					}
-					blk := b.bc.Mine(txs)
-					cd.Height = blk.Height
-					lh.logf("bitcoin: candidate of pid %d mined in block %d at position %d", p.Pid, blk.Height, cd.Index)
-				}
-			}
-		}
-		// ---- relayer: unvoted messages ----
-		for _, p := range open {
-			for _, cd := range p.Cands {
-				if cd.Height != 0 && cd.Height <= b.votedTip && r.Intn(2) == 0 {
-					perturb := ""
-					if r.Intn(2) == 0 {
-						perturb = finalizePerturbs[r.Intn(len(finalizePerturbs))]
-					}
-					if op := m.finalizeOp(p, cd, perturb); op != nil {
-						b.ops = append(b.ops, op)
-						if perturb == "" {
-							break
-						}
-					}
-				}
-			}
-		}
-		if cl := m.idsIn("canceling"); len(cl) > 0 && r.Intn(3) == 0 {
-			n := 1 + r.Intn(len(cl))
-			if op := m.approveOp(cl[:n], ""); op != nil {
-				b.ops = append(b.ops, op)
-			}
-		} else if r.Intn(6) == 0 {
-			others := m.idsIn("pending", "processing", "paid", "canceled")
-			if len(others) > 0 {
-				ids := []uint64{others[r.Intn(len(others))]}
-				if len(cl) > 0 {
-					ids = append(ids, cl[0])
-				}
-				if op := m.approveOp(ids, "id-in-other-state"); op != nil {
-					b.ops = append(b.ops, op)
-				}
-			}
-		}
+		c05Gen(m, blk, cfg.Blocks, idx, addrPool)
 		if !b.runBlock() {
 			return
 		}
